@@ -184,6 +184,30 @@ func C13Apply(r *simkit.Run) {
 			}
 		}
 	}
+	// A third of the runs connect with _fk=1 (foreign keys enforced). There a failing statement may
+	// also be an insert that violates a foreign key: outside a transaction it fails at once, inside
+	// one (Atlas suspends enforcement in its transactions and checks before committing) it makes
+	// the commit fail — the other position of a failure the modes have to cope with.
+	w.FK = t.Chance("foreign-keys-enforced", 1, 3)
+	fkChild := ""
+	if w.FK {
+		f1 := files[0]
+		k := len(f1.Stmts)
+		pid, cid := fmt.Sprintf("f1.s%d", k), fmt.Sprintf("f1.s%d", k+1)
+		f1.Stmts = append(f1.Stmts,
+			Stmt{ID: pid, Kind: KDDL, SQL: fmt.Sprintf("CREATE TABLE IF NOT EXISTS %s (id integer PRIMARY KEY)", ddlTable(pid))},
+			Stmt{ID: cid, Kind: KDDL, SQL: fmt.Sprintf("CREATE TABLE IF NOT EXISTS %s (id text, pid integer REFERENCES %s (id))", ddlTable(cid), ddlTable(pid))})
+		fkChild = ddlTable(cid)
+		r.Probe("foreign-keys-enforced")
+	}
+	mkBad := func(tag string, k int) Stmt {
+		if fkChild != "" && t.Chance("bad-by-foreign-key", 1, 2) {
+			r.Probe("failing-statement-violates-foreign-key")
+			id := fmt.Sprintf("%s.s%d", tag, k)
+			return Stmt{ID: id, Kind: KBad, SQL: fmt.Sprintf("INSERT INTO %s (id, pid) VALUES ('%s', 424242)", fkChild, id)}
+		}
+		return MkStmt(tag, k, KBad)
+	}
 	// One failing statement somewhere (fault), except in fault-free runs.
 	var badFile *MFile
 	badIdx := -1
@@ -198,13 +222,13 @@ func C13Apply(r *simkit.Run) {
 				badIdx = 1
 			}
 		}
-		badFile.Stmts[badIdx] = MkStmt(fmt.Sprintf("f%d", badFile.Idx), badIdx, KBad)
+		badFile.Stmts[badIdx] = mkBad(fmt.Sprintf("f%d", badFile.Idx), badIdx)
 		// Sometimes a second statement fails too, further down the same file or in a later file.
 		if t.Chance("second-bad-statement", 1, 3) {
 			f2 := files[badFile.Idx-1+t.Draw("second-bad-file", len(files)-badFile.Idx+1)]
 			k2 := t.Draw("second-bad-stmt", len(f2.Stmts))
 			if (f2 != badFile || k2 > badIdx) && !(f2.Idx == 1 && k2 == 0) {
-				f2.Stmts[k2] = MkStmt(fmt.Sprintf("f%d", f2.Idx), k2, KBad)
+				f2.Stmts[k2] = mkBad(fmt.Sprintf("f%d", f2.Idx), k2)
 			}
 		}
 		r.Tag("fault-injecting")
